@@ -566,10 +566,28 @@ def oracleC04 (c : Case) : Option (List String) :=
         let cc := cs.getD x0 ([], 0)
         check "C04.absolute" (closeList τ b cc.1 && closeQ τ u cc.2)
       | none => []
+    -- the defining form: belief-weighted mixture of the conditionals plus u_X times the most uncertain apex
+    -- opinion with projection Σ_x a(x)P(y|x) whose masses are at least min_x b(y|x)
+    let pyhx := (List.range m).map fun y =>
+      sumQ (List.zipWith (fun ax' cc => ax' * (cc.1.getD y 0 + ay.getD y 0 * cc.2)) ax cs)
+    let bmin := (List.range m).map fun y =>
+      (cs.map fun cc => cc.1.getD y 0).foldl minQ ((cs.headD ([], 0)).1.getD y 0)
+    let uhat : Option Rat := (List.range m).foldl (fun (acc : Option Rat) y =>
+      if ay.getD y 0 > 0 then
+        let v := (pyhx.getD y 0 - bmin.getD y 0) / ay.getD y 0
+        match acc with | none => some v | some mm => some (minQ mm v)
+      else acc) none
+    let apex : List String := match uhat with
+      | none => []
+      | some uh =>
+        let uWant := uh * ux + sumQ (List.zipWith (fun bb cc => bb * cc.2) bx cs)
+        let bWant := (List.range m).map fun y =>
+          sumQ (List.zipWith (fun bb cc => bb * cc.1.getD y 0) bx cs) + ux * (pyhx.getD y 0 - ay.getD y 0 * uh)
+        check "C04.mixture_plus_apex" (closeQ τ u uWant && closeList τ b bWant)
     check "C04.wf" (wfSimplex (τ * (m + 1)) b u)
       ++ check "C04.base_rate" (closeList τ a ay)
       ++ check "C04.total_probability" (closeList τ (projQ b u ay) want)
-      ++ absolute
+      ++ absolute ++ apex
 
 /-- C06: product is the well-formed, maximally uncertain independent joint -/
 def oracleC06 (c : Case) : Option (List String) :=
